@@ -348,7 +348,7 @@ theorem rangeList_in_range (n A B : Nat) (c : Int) (hB : B ≤ n) :
     have : 0 ≤ c * (j : Int) := Int.mul_nonneg (by omega) (by omega)
     simp only [hc, gt_iff_lt, if_true]; omega
 
-theorem slice_len_get (I : Iterable α) {l : List α} (h : LawfulAs I l) (A B : Nat) (c : Int) (hB : B ≤ l.length) :
+theorem slice_len_get (I : Iterable α) {l : List α} (h : LenGetAs I l) (A B : Nat) (c : Int) (hB : B ≤ l.length) :
     (∀ n, (sliceI I l.length A B c).len = some n → n = (sliceSpec l A B c).length) ∧
     (∀ g, (sliceI I l.length A B c).get = some g → ∀ i (hi : i < (sliceSpec l A B c).length),
       g (Int.ofNat i) = some (sliceSpec l A B c)[i]) := by
@@ -403,7 +403,7 @@ theorem exists_mul_of_emod (x : Nat) (C : Nat) (hC : 1 ≤ C) (h : (x : Int) % (
   have : ((q * C : Nat) : Int) = (x : Int) := by push_cast; rw [Int.mul_comm]; omega
   exact_mod_cast this
 
-theorem slice_fwdAs (I : Iterable α) {l : List α} (h : LawfulAs I l) (A B : Nat) (c : Int)
+theorem slice_fwdAs (I : Iterable α) {l : List α} {c : Int} (hfw : c > 0 → FwdAs I l) (hbw : c < 0 → BwdAs I l) (A B : Nat)
     (hA : A ≤ l.length) (hB : B ≤ l.length) (hr : SliceRegionFwd l.length A B c) :
     FwdAs (sliceI I l.length A B c) (sliceSpec l A B c) := by
   rcases hr with ⟨hc, hr⟩ | ⟨hc, hr⟩ | hc
@@ -411,12 +411,12 @@ theorem slice_fwdAs (I : Iterable α) {l : List α} (h : LawfulAs I l) (A B : Na
     have hC : 1 ≤ C := by omega
     rcases hr with ha | ⟨hm, hb⟩
     · have : A = l.length := by omega
-      exact slice_fwd_pos I h.fwd A B C 0 hC (by omega) hB (Or.inl rfl)
+      exact slice_fwd_pos I (hfw hc) A B C 0 hC (by omega) hB (Or.inl rfl)
     · have hm' : ((l.length - A : Nat) : Int) % (C : Int) = 0 := by
         have : ((l.length - A : Nat) : Int) = (l.length : Int) - (A : Int) := by omega
         rw [this]; exact hm
       obtain ⟨q, hq⟩ := exists_mul_of_emod (l.length - A) C hC hm'
-      exact slice_fwd_pos I h.fwd A B C q hC (by omega) hB (Or.inr (by omega))
+      exact slice_fwd_pos I (hfw hc) A B C q hC (by omega) hB (Or.inr (by omega))
   · obtain ⟨K, hK⟩ := Int.eq_ofNat_of_zero_le (show 0 ≤ -c by omega)
     have : c = -(K : Int) := by omega
     subst this
@@ -424,17 +424,17 @@ theorem slice_fwdAs (I : Iterable α) {l : List α} (h : LawfulAs I l) (A B : Na
     rcases hr with hb | ⟨hm, ha⟩
     · have : B = 0 := by omega
       subst this
-      exact slice_fwd_neg I h.bwd A 0 K 0 hK1 (by simp) (by omega) (Or.inl rfl)
+      exact slice_fwd_neg I (hbw hc) A 0 K 0 hK1 (by simp) (by omega) (Or.inl rfl)
     · have hm' : (B : Int) % (K : Int) = 0 := by simpa using hm
       obtain ⟨q, hq⟩ := exists_mul_of_emod B K hK1 hm'
-      exact slice_fwd_neg I h.bwd A B K q hK1 hq hB (Or.inr (by omega))
+      exact slice_fwd_neg I (hbw hc) A B K q hK1 hq hB (Or.inr (by omega))
   · subst hc
     intro s
     have : sliceSpec l A B 0 = [] := by simp [sliceSpec, rangeList, rangeLen]
     rw [this]
     exact Run.of_term (by simp [sliceI])
 
-theorem slice_bwdAs (I : Iterable α) {l : List α} (h : LawfulAs I l) (A B : Nat) (c : Int)
+theorem slice_bwdAs (I : Iterable α) {l : List α} {c : Int} (hbw : c > 0 → BwdAs I l) (hfw : c < 0 → FwdAs I l) (A B : Nat)
     (hA : A ≤ l.length) (hB : B ≤ l.length) (hr : SliceRegionBwd l.length A B c) :
     BwdAs (sliceI I l.length A B c) (sliceSpec l A B c) := by
   rcases hr with ⟨hc, hr⟩ | ⟨hc, hr⟩ | hc
@@ -443,21 +443,21 @@ theorem slice_bwdAs (I : Iterable α) {l : List α} (h : LawfulAs I l) (A B : Na
     rcases hr with hb | ⟨hm, ha⟩
     · have : B = 0 := by omega
       subst this
-      exact slice_bwd_pos I h.bwd A 0 C 0 hC (by simp) (by omega) (Or.inl rfl)
+      exact slice_bwd_pos I (hbw hc) A 0 C 0 hC (by simp) (by omega) (Or.inl rfl)
     · obtain ⟨q, hq⟩ := exists_mul_of_emod B C hC hm
-      exact slice_bwd_pos I h.bwd A B C q hC hq hB (Or.inr (by omega))
+      exact slice_bwd_pos I (hbw hc) A B C q hC hq hB (Or.inr (by omega))
   · obtain ⟨K, hK⟩ := Int.eq_ofNat_of_zero_le (show 0 ≤ -c by omega)
     have : c = -(K : Int) := by omega
     subst this
     have hK1 : 1 ≤ K := by omega
     rcases hr with ha | ⟨hm, hb⟩
     · have : A = l.length := by omega
-      exact slice_bwd_neg I h.fwd A B K 0 hK1 (by omega) hB (Or.inl rfl)
+      exact slice_bwd_neg I (hfw hc) A B K 0 hK1 (by omega) hB (Or.inl rfl)
     · have hm' : ((l.length - A : Nat) : Int) % (K : Int) = 0 := by
         have : ((l.length - A : Nat) : Int) = (l.length : Int) - (A : Int) := by omega
         rw [this]; simpa using hm
       obtain ⟨q, hq⟩ := exists_mul_of_emod (l.length - A) K hK1 hm'
-      exact slice_bwd_neg I h.fwd A B K q hK1 (by omega) hB (Or.inr (by omega))
+      exact slice_bwd_neg I (hfw hc) A B K q hK1 (by omega) hB (Or.inr (by omega))
   · subst hc
     intro s
     have : sliceSpec l A B 0 = [] := by simp [sliceSpec, rangeList, rangeLen]
